@@ -147,12 +147,21 @@ fn long_rear_case(j: u64) -> Case {
     let mut strings = vec!["a".to_string(), long.clone(), "ac".to_string(), "ad".to_string()];
     if j % 3 == 0 {
         // a second long string right after the first: large common prefix, small rear length
-        strings.insert(2, format!("{}{}", &long[..long.len() - 5], "c"));
+        strings.insert(2, format!("{}{}", &long[..long.len() - 1], "c")); // same length: the rear length of "ac" stays `rear`
     }
     if j % 5 == 0 {
         strings.push("b".to_string());
     }
+    // the short string after the long one must not open a block (block heads are stored verbatim)
+    let at = strings.iter().position(|s| s == "ac").unwrap();
+    let k = if at % k == 0 { k + 1 } else { k };
     Case { k, strings, order: 0, via_extend: j % 2 == 1, seed: j }
+}
+
+/// The largest rear length actually encoded: previous length minus common
+/// prefix, over the strings that do not open a block.
+fn max_encoded_rear(v: &[String], k: usize) -> usize {
+    (1..v.len()).filter(|i| i % k != 0).map(|i| v[i - 1].len() - v[i - 1].bytes().zip(v[i].bytes()).take_while(|(a, b)| a == b).count()).max().unwrap_or(0)
 }
 
 fn probes(c: &Case) -> Vec<String> {
@@ -347,9 +356,13 @@ impl Property for C09 {
             let c = long_rear_case(u64::from_le_bytes(b));
             cx.hash(&("long-rear", u64::from_le_bytes(b)));
             cx.describe(|| format!("long rear lengths: k={} n={} string lengths {:?}", c.k, c.strings.len(), c.strings.iter().map(|s| s.len()).collect::<Vec<_>>()));
-            cx.label("rear>=16512");
-            cx.label_if(c.strings.iter().any(|s| s.len() >= 2_113_664), "rear>=2113664");
-            cx.label_if(c.strings.iter().any(|s| s.len() >= 270_549_120), "rear>=270549120");
+            let r = max_encoded_rear(&c.strings, c.k);
+            cx.label_if(r >= 16_512, "rear>=16512");
+            cx.label_if(r >= 2_113_664, "rear>=2113664");
+            cx.label_if(r >= 270_549_120, "rear>=270549120");
+            if r < 16_000 {
+                return Err(Fail::mismatch("harness", format!("harness: long-rear case encodes no long rear length (k={}, max {r})", c.k)));
+            }
             cx.nontrivial();
             return check(cx, &c);
         }
@@ -376,8 +389,10 @@ impl Property for C09 {
             sorted &= w[0] <= w[1];
             dups |= w[0] == w[1];
         }
-        cx.label_if(rear128, "rear>=128");
-        cx.label_if(rear16512, "rear>=16512");
+        let _ = (rear128, rear16512);
+        let r = max_encoded_rear(v, c.k);
+        cx.label_if(r >= 128, "rear>=128");
+        cx.label_if(r >= 16512, "rear>=16512");
         cx.label_if(!sorted, "unsorted");
         cx.label_if(dups, "dups");
         cx.label_if(v.iter().any(|s| !s.is_ascii()), "multibyte");
